@@ -109,7 +109,7 @@ impl Gen {
     }
 
     fn gen_query(&mut self) -> Input {
-        let (text, family, nest, hostile) = self.any_query_text();
+        let (text, family, nest, hostile) = self.any_query_text(true);
         let mut i = self.base("query", &family);
         if self.r.chance(1, 4) {
             i.schema = "apq".into();
@@ -153,9 +153,12 @@ impl Gen {
     fn gen_opname(&mut self) -> Input {
         let mut i = self.base("opname", "opname");
         let ops = 1 + self.r.below(4);
+        let how = self.r.below(8);
+        self.safe_ctx = how != 2;
         let doc = self.valid_doc(ops, false);
+        self.safe_ctx = false;
         let mut text = doc.text.clone();
-        match self.r.below(8) {
+        match how {
             0 => text.push_str(" query Op0 { int }"), // duplicate operation name
             1 => text.push_str(" { int }"),           // anonymous next to named
             2 => text = self.mutate_tokens(&text),
@@ -194,7 +197,14 @@ impl Gen {
     }
 
     /// (query text, variables JSON text, family)
-    fn hostile_vars(&mut self) -> (String, String, String) {
+    fn hostile_vars(&mut self, pure: bool) -> (String, String, String) {
+        self.safe_ctx = pure;
+        let out = self.hostile_vars_inner(pure);
+        self.safe_ctx = false;
+        out
+    }
+
+    fn hostile_vars_inner(&mut self, pure: bool) -> (String, String, String) {
         match self.r.weighted(&[20, 30, 12, 10, 10, 8, 10]) {
             0 => {
                 let (t, v) = self.upload_vars_doc();
@@ -250,7 +260,11 @@ impl Gen {
                     4 => "v0.x".into(),
                     _ => "v".into(),
                 };
-                let text = "query Op0($v: Int, $w: Rec = {name: \"d\"}) { int(v: $v) rec(v: $w) }".to_string();
+                let text = if self.defaults_ok() {
+                    "query Op0($v: Int, $w: Rec = {name: \"d\"}) { int(v: $v) rec(v: $w) }".to_string()
+                } else {
+                    "query Op0($v: Int, $w: Rec) { int(v: $v) rec(v: $w) }".to_string()
+                };
                 let v = format!("{{{}:{},\"zz\":{}}}", serde_json::to_string(&k).unwrap(), self.hostile_json(), self.hostile_json());
                 (text, v, "odd-keys".into())
             }
@@ -282,14 +296,14 @@ impl Gen {
             }
             _ => {
                 // hostile document, ordinary variables
-                let (t, fam, _, _) = self.any_query_text();
+                let (t, fam, _, _) = self.any_query_text(pure);
                 (t, "{\"v0\":1,\"v\":[1,2],\"b\":true}".into(), format!("vars+{fam}"))
             }
         }
     }
 
     fn gen_variables(&mut self) -> Input {
-        let (text, vars, family) = self.hostile_vars();
+        let (text, vars, family) = self.hostile_vars(true);
         let mut i = self.base("variables", &family);
         i.mode = Some(if self.r.bool() { "from_json" } else { "request_json" }.into());
         if self.r.chance(1, 3) {
@@ -362,10 +376,10 @@ impl Gen {
     fn gen_query_string(&mut self) -> Input {
         let mut i = self.base("query_string", "query-string");
         let (q, vars, fam) = if self.r.bool() {
-            let (t, f, _, _) = self.any_query_text();
+            let (t, f, _, _) = self.any_query_text(false);
             (t, "{\"v0\":1}".to_string(), f)
         } else {
-            self.hostile_vars()
+            self.hostile_vars(false)
         };
         // keep query strings of ordinary size most of the time
         let q = if q.len() > 20_000 && !self.r.chance(1, 10) { "{ int }".to_string() } else { q };
@@ -421,9 +435,9 @@ impl Gen {
     /// A request as JSON object text; parts may be hostile.
     fn request_json_text(&mut self) -> (String, String) {
         let (q, vars, fam) = if self.r.chance(2, 5) {
-            self.hostile_vars()
+            self.hostile_vars(false)
         } else {
-            let (t, f, _, _) = self.any_query_text();
+            let (t, f, _, _) = self.any_query_text(false);
             (t, "{\"v0\":1}".to_string(), f)
         };
         let q = if q.len() > 50_000 && !self.r.chance(1, 8) { "{ int }".to_string() } else { q };
@@ -439,7 +453,7 @@ impl Gen {
             let (_, e) = self.hostile_extensions();
             parts.push(format!("\"extensions\":{e}"));
         }
-        match self.r.below(16) {
+        match self.r.below(26) {
             0 => parts.push("\"query\":\"{ string }\"".into()),
             1 => parts[0] = format!("\"query\":{}", self.hostile_json()),
             2 => parts.push(format!("\"operationName\":{}", self.hostile_json())),
@@ -503,7 +517,7 @@ impl Gen {
         } else {
             one
         };
-        match self.r.below(24) {
+        match self.r.below(44) {
             0 => text = String::new(),
             1 => text = "[]".into(),
             2 => text = "null".into(),
@@ -519,13 +533,13 @@ impl Gen {
             _ => {}
         }
         let mut bytes = text.into_bytes();
-        if self.r.chance(1, 4) {
+        if self.r.chance(1, 7) {
             self.mutate_bytes(&mut bytes);
         }
         i.body_b64 = Some(b64_encode(&bytes));
         i.content_type = match self.r.below(10) {
             0 => None,
-            1..=4 => Some("application/json".into()),
+            1..=6 => Some("application/json".into()),
             _ => Some(self.r.pick(&CONTENT_TYPES).to_string()),
         };
         if self.r.chance(1, 6) {
@@ -576,7 +590,7 @@ impl Gen {
             let mut ps: Vec<String> = vec![];
             let np = 1 + self.r.below(2);
             for _ in 0..np {
-                let p = if !paths.is_empty() && self.r.chance(3, 5) {
+                let p = if !paths.is_empty() && self.r.chance(4, 5) {
                     let p = self.r.pick(&paths).clone();
                     if batch { format!("0.{p}") } else { p }
                 } else if self.r.chance(1, 8) {
@@ -589,7 +603,7 @@ impl Gen {
             map_entries.push(format!("\"{k}\":[{}]", ps.join(",")));
         }
         let mut map_text = format!("{{{}}}", map_entries.join(","));
-        match self.r.below(16) {
+        match self.r.below(36) {
             0 => map_text = "{\"5\":[\"variables.f\"]}".into(),
             1 => map_text = "{\"0\":\"variables.f\"}".into(),
             2 => map_text = "[]".into(),
@@ -645,7 +659,7 @@ impl Gen {
             }
         }
         for k in 0..nfiles {
-            if !self.r.chance(1, 15) {
+            if !self.r.chance(1, 30) {
                 parts.push((2, k));
             }
         }
@@ -660,13 +674,13 @@ impl Gen {
                 _ => {
                     let size = if big { 300_000 } else { self.r.below(64) };
                     let data: Vec<u8> = (0..size).map(|x| (x * 31 + k) as u8).collect();
-                    let name = match self.r.below(12) {
+                    let name = match self.r.below(36) {
                         0 => None,
                         1 => Some("operations".to_string()),
                         2 => Some("".to_string()),
                         _ => Some(k.to_string()),
                     };
-                    let filename = match self.r.below(10) {
+                    let filename = match self.r.below(24) {
                         0 => None,
                         1 => Some("../../etc/passwd".to_string()),
                         2 => Some("a\u{0}b".to_string()),
@@ -680,7 +694,7 @@ impl Gen {
         }
         body.extend_from_slice(format!("--{boundary}--\r\n").as_bytes());
         let mut header_boundary = boundary.clone();
-        match self.r.below(20) {
+        match self.r.below(36) {
             0 => header_boundary = "wrong".into(),
             1 => header_boundary = String::new(),
             2 => {
@@ -697,7 +711,7 @@ impl Gen {
             6 => body.clear(),
             _ => {}
         }
-        i.content_type = Some(match self.r.below(16) {
+        i.content_type = Some(match self.r.below(28) {
             0 => "multipart/form-data".to_string(),
             1 => format!("multipart/form-data; boundary=\"{header_boundary}\""),
             2 => format!("multipart/mixed; boundary={header_boundary}"),
